@@ -85,6 +85,72 @@ def run_cell(args):
         }
 
 
+def _one_execution(cell, policy):
+    """Runs ONE schedule of a cell (policy 'first': always the first enabled event, 'last': always the last one);
+    returns (observation, violations, choices)."""
+    from . import explorer
+
+    W = world_factory(cell)
+
+    class _Ctl(explorer.Ctl):
+        def choose(self, n, free=False):
+            if n <= 1:
+                return 0
+            ch = 0 if policy == "first" else n - 1
+            self.choices.append(ch)
+            self.points.append((n, free))
+            return ch
+
+    ctl = _Ctl([])
+    w = W(cell["scen"], ctl)
+    try:
+        for _ in range(400):
+            acts = w.boundary()
+            if w.viol or not acts:
+                break
+            w.do(acts[ctl.choose(len(acts), free=w.idle())])
+        if not w.viol:
+            w.terminal()
+        return w.observation(), [(v[0], v[1]) for v in w.viol], list(ctl.choices)
+    finally:
+        w.release()
+
+
+def carry_over_check(args):
+    """Differential oracle 'same behaviour from the initial state and from elsewhere': a schedule of a small scenario
+    must give the same observation in a fresh process state and after many other pools/tasks have lived and died in
+    the same process WITHOUT the harness resetting the library's module/class-level state in between (so that state
+    which the code under test carries from one pool to the next - caches, hoisted buffers - becomes visible)."""
+    import gc
+
+    from . import vloop
+
+    cells, rounds = args
+    fresh = {}
+    for c in cells:
+        for pol in ("first", "last"):
+            fresh[(c["name"], pol)] = _one_execution(c, pol)
+    real_restore = vloop._restore_library_state
+    vloop._restore_library_state = lambda: None
+    bad = []
+    try:
+        for _ in range(rounds):
+            for c in cells:
+                _one_execution(c, "first")
+                _one_execution(c, "last")
+            gc.collect()
+        for c in cells:
+            for pol in ("first", "last"):
+                o, v, ch = _one_execution(c, pol)
+                fo, fv, fch = fresh[(c["name"], pol)]
+                if (o, v) != (fo, fv):
+                    bad.append({"cell": c["name"], "policy": pol, "fresh_violations": fv, "carried_violations": v,
+                                "same_observation": o == fo})
+    finally:
+        vloop._restore_library_state = real_restore
+    return 2 * len(cells) * (rounds + 2), bad
+
+
 def save_replay(prop, cell, viol):
     os.makedirs(os.path.join(VERIF, "replays"), exist_ok=True)
     body = {
@@ -257,6 +323,14 @@ def run_property(prop, tier, seed, jobs=None, only=None, budget=None, grid=None,
                         xv_results.append({"cell": r["name"], **r["xval"]})
                     if "error" in r:
                         results[r["name"]] = r
+    # state carried over between independent pools of one process (see carry_over_check)
+    carry_bad, carry_execs = [], 0
+    if jobs > 1 and not only and cells and cells[0].get("world", "pool") == "pool":
+        picked = _carry_cells(cells)
+        if picked:
+            ctx = mp.get_context("fork")
+            with ctx.Pool(1) as pool:
+                carry_execs, carry_bad = pool.apply(carry_over_check, ((picked, 6 if tier == "quick" else 20),))
     wall = time.time() - t0
     errors = [r for r in results.values() if "error" in r]
     known = [k for k in load_known() if k["property"] == prop]
@@ -282,6 +356,14 @@ def run_property(prop, tier, seed, jobs=None, only=None, budget=None, grid=None,
             n_viol += 1
             path = save_replay(prop, cell, v)
             viol_lines.append((path, name, v))
+    for b in carry_bad:
+        path = os.path.join(VERIF, "replays", f"{prop}-carry-{hashlib.blake2b(b['cell'].encode(), digest_size=5).hexdigest()}.json")
+        os.makedirs(os.path.dirname(path), exist_ok=True)
+        with open(path, "w") as f:
+            json.dump({"property": prop, "world": "carry", "cell": b["cell"], "scen": byname[b["cell"]]["scen"],
+                       "monitors": byname[b["cell"]].get("monitors", []), "detail": b}, f, indent=1)
+        viol_lines.append((path, b["cell"], {"prop": prop, "key": "behaviour depends on pools that lived earlier in the same process "
+                                             "(state carried over between independent pools)", "detail": json.dumps(b)[:300]}))
     tot = {k: 0 for k in ("executions", "transitions", "states", "pruned", "terminals", "det_checks", "unhashable")}
     maxdepth = 0
     obs = 0
@@ -338,6 +420,7 @@ def run_property(prop, tier, seed, jobs=None, only=None, budget=None, grid=None,
             "explanation": getattr(mod, "EXPLANATION", ""),
             "known_findings_hit": sorted(known_hit),
             "fixed_finding_schedules_replayed": n_regr,
+            "carry_over_executions": carry_execs,
         },
         "assumptions": getattr(mod, "ASSUMPTIONS", []) + [
             "every execution runs the real asyncio_taskpool code from the current working tree on a virtual event loop; "
@@ -345,7 +428,7 @@ def run_property(prop, tier, seed, jobs=None, only=None, budget=None, grid=None,
             "CPython 3.12.1 asyncio semantics (FIFO ready queue, Semaphore hand-off)",
         ],
         "wall_s": round(wall, 2),
-        "violations": n_viol + len(regr_bad),
+        "violations": n_viol + len(regr_bad) + len(carry_bad),
     }
     evdir = os.environ.get("VERIF_EVIDENCE_DIR") or os.path.join(VERIF, "evidence")
     os.makedirs(evdir, exist_ok=True)
@@ -370,10 +453,32 @@ def run_property(prop, tier, seed, jobs=None, only=None, budget=None, grid=None,
     return 1 if viol_lines else 0
 
 
+def _carry_cells(cells):
+    small = sorted((c for c in cells if len(json.dumps(c["scen"])) < 400 and not c["scen"].get("inline")),
+                   key=lambda c: len(json.dumps(c["scen"])))
+    return small[:: max(1, len(small) // 10)][:10]
+
+
 def run_replay(path):
     with open(path) as f:
         body = json.load(f)
     from . import explorer
+
+    if body.get("world") == "carry":
+        # not a single schedule: the carry-over procedure of the property is re-run as a whole
+        prop = body["property"]
+        mod = importlib.import_module(f"props.{prop.lower()}")
+        cells = mod.cells("quick")
+        if prop in CROSS_PROPS:
+            cells += core_cells(prop, getattr(mod, "MON", [prop]))
+        n, bad = carry_over_check((_carry_cells(cells), 6))
+        print(f"carry-over check: {n} executions, {len(bad)} scenario(s) behave differently after earlier pools lived in the process")
+        for b in bad:
+            print("  ", json.dumps(b)[:400])
+        if bad:
+            print(f"VIOLATION property={prop} replay={path}")
+            return 1
+        return 0
 
     cell = {"name": body["cell"], "world": body.get("world", "pool"), "monitors": body.get("monitors", []), "scen": body["scen"]}
     W = world_factory(cell)
